@@ -9,8 +9,8 @@
 EXTENDS Integers, Sequences, FiniteSets, TLC, Json
 CONSTANT TraceFile
 Trace == ndJsonDeserialize(TraceFile)
-VARIABLES l, cat, mem, maybe, ref, order, wlive, wmaybe, viol
-vars == <<l, cat, mem, maybe, ref, order, wlive, wmaybe, viol>>
+VARIABLES l, cat, mem, maybe, ref, order, descr, wlive, wmaybe, viol
+vars == <<l, cat, mem, maybe, ref, order, descr, wlive, wmaybe, viol>>
 Empty == [x \in {} |-> 0]
 Put(f, x, v) == [y \in DOMAIN f \cup {x} |-> IF y = x THEN v ELSE f[y]]
 Drop(f, x) == [y \in DOMAIN f \ {x} |-> f[y]]
@@ -36,28 +36,33 @@ ViewViol(t) ==
       ordv == IF \E i \in 1..Len(t.datasets) : t.datasets[i].id \in DOMAIN order
                      /\ [j \in 1..Len(t.datasets[i].parts) |-> t.datasets[i].parts[j][1]] # order[t.datasets[i].id]
               THEN {<<l, "PartitionOrderChanged">>} ELSE {}
-  IN catv \cup metav \cup memv \cup errv \cup ordv
+      \* every node lists a dataset with the dimension and the metric it was created with (also after a restart from a snapshot)
+      dscv == IF \E i \in 1..Len(t.datasets) : t.datasets[i].id \in DOMAIN descr
+                     /\ <<t.datasets[i].dim, t.datasets[i].space>> # descr[t.datasets[i].id]
+              THEN {<<l, "CatalogueMetadataDiffers">>} ELSE {}
+  IN catv \cup metav \cup memv \cup errv \cup ordv \cup dscv
 
-Init == l = 1 /\ cat = {} /\ mem = Empty /\ maybe = {} /\ ref = <<>> /\ order = Empty /\ wlive = {} /\ wmaybe = {} /\ viol = {}
+Init == l = 1 /\ cat = {} /\ mem = Empty /\ maybe = {} /\ ref = <<>> /\ order = Empty /\ descr = Empty /\ wlive = {} /\ wmaybe = {} /\ viol = {}
 Step ==
   /\ l <= Len(Trace) /\ l' = l + 1
   /\ LET t == Trace[l] IN
-     CASE t.ev = "scenario" -> cat' = {} /\ mem' = Empty /\ maybe' = {} /\ ref' = <<>> /\ order' = Empty /\ wlive' = {} /\ wmaybe' = {} /\ viol' = viol
+     CASE t.ev = "scenario" -> cat' = {} /\ mem' = Empty /\ maybe' = {} /\ ref' = <<>> /\ order' = Empty /\ descr' = Empty /\ wlive' = {} /\ wmaybe' = {} /\ viol' = viol
        [] t.ev = "joined" -> /\ mem' = (IF t.ok = 1 THEN Put(mem, ToString(t.node), t.addr) ELSE mem)
                              /\ maybe' = (IF t.ok = 1 THEN maybe \ {ToString(t.node)} ELSE maybe \cup {ToString(t.node)})
-                             /\ viol' = viol \cup (IF t.ok = 1 THEN {} ELSE {<<l, "JoinFailed">>}) /\ UNCHANGED <<cat, ref, order, wlive, wmaybe>>
+                             /\ viol' = viol \cup (IF t.ok = 1 THEN {} ELSE {<<l, "JoinFailed">>}) /\ UNCHANGED <<cat, ref, order, descr, wlive, wmaybe>>
        \* a join attempt whose handshake may be lost: acknowledged (the node reports itself ready) or refused
        [] t.ev = "joinattempt" -> /\ mem' = (IF t.ack = 1 THEN Put(mem, ToString(t.node), t.addr) ELSE mem)
                                   /\ maybe' = (IF t.ack = 1 THEN maybe ELSE maybe \cup {ToString(t.node)})
-                                  /\ viol' = viol /\ UNCHANGED <<cat, ref, order, wlive, wmaybe>>
+                                  /\ viol' = viol /\ UNCHANGED <<cat, ref, order, descr, wlive, wmaybe>>
        [] t.ev = "left" -> /\ mem' = (IF t.ok = 1 THEN Drop(mem, ToString(t.node)) ELSE mem) /\ maybe' = maybe
-                           /\ viol' = viol /\ UNCHANGED <<cat, ref, order, wlive, wmaybe>>
+                           /\ viol' = viol /\ UNCHANGED <<cat, ref, order, descr, wlive, wmaybe>>
        [] t.ev = "create" -> /\ cat' = (IF t.ok = 1 THEN cat \cup {t.id} ELSE cat) /\ ref' = <<>>
                              /\ order' = (IF t.ok = 1 THEN Put(order, t.id, t.parts) ELSE order)
+                             /\ descr' = (IF t.ok = 1 THEN Put(descr, t.id, <<t.dim, t.space>>) ELSE descr)
                              /\ viol' = viol \cup (IF t.ok = 1 THEN {} ELSE {<<l, "CreateFailed">>}) /\ UNCHANGED <<mem, maybe, wlive, wmaybe>>
        [] t.ev = "delete" -> /\ cat' = (IF t.ok = 1 THEN cat \ {t.id} ELSE cat) /\ ref' = <<>>
-                             /\ viol' = viol \cup (IF t.ok = 1 THEN {} ELSE {<<l, "DeleteFailed">>}) /\ UNCHANGED <<mem, maybe, order, wlive, wmaybe>>
-       [] t.ev = "started" -> /\ viol' = viol \cup (IF t.ok = 1 THEN {} ELSE {<<l, "RestartFailed">>}) /\ ref' = <<>> /\ UNCHANGED <<cat, mem, maybe, order, wlive, wmaybe>>
+                             /\ viol' = viol \cup (IF t.ok = 1 THEN {} ELSE {<<l, "DeleteFailed">>}) /\ UNCHANGED <<mem, maybe, order, descr, wlive, wmaybe>>
+       [] t.ev = "started" -> /\ viol' = viol \cup (IF t.ok = 1 THEN {} ELSE {<<l, "RestartFailed">>}) /\ ref' = <<>> /\ UNCHANGED <<cat, mem, maybe, order, descr, wlive, wmaybe>>
        \* acknowledged writes against what a search returns afterwards (C03 on real server processes):
        \* an acknowledged insert is there, an acknowledged remove is gone, nothing else appears; a write whose
        \* acknowledgement was an error may or may not have taken effect
@@ -72,7 +77,7 @@ Step ==
                                 \cup (IF t.res = "notfound" /\ t.id \in wlive \ wmaybe THEN {<<l, "SpuriousNotFound">>} ELSE {})
                                 \* the serving node talked to a peer through a connection it had closed itself (C20: reachability)
                                 \cup (IF t.closed = 1 THEN {<<l, "PeerUnreachable">>} ELSE {})
-                           /\ UNCHANGED <<cat, mem, maybe, ref, order>>
+                           /\ UNCHANGED <<cat, mem, maybe, ref, order, descr>>
        [] t.ev = "found" -> LET got == {t.ids[j] : j \in 1..Len(t.ids)} IN
                             /\ viol' = viol \cup (IF t.closed = 1 THEN {<<l, "PeerUnreachable">>} ELSE {})
                                             \cup (IF t.err # "" THEN {<<l, "SearchUnavailable">>}
@@ -86,15 +91,15 @@ Step ==
                                                         \cup (IF t.sizeerr # "" THEN {}
                                                               ELSE IF t.size >= Cardinality(wlive \ wmaybe) /\ t.size <= Cardinality(wlive \cup wmaybe)
                                                                    THEN {} ELSE {<<l, "SizeNotSum">>}))
-                            /\ UNCHANGED <<cat, mem, maybe, ref, order, wlive, wmaybe>>
+                            /\ UNCHANGED <<cat, mem, maybe, ref, order, descr, wlive, wmaybe>>
        \* a partition-level RPC sent to a node that knows the partition but does not host it must be refused
        [] t.ev = "probe" -> /\ viol' = viol \cup (IF t.ok = 1 THEN {<<l, "ForeignPartitionServed">>} ELSE {})
-                            /\ UNCHANGED <<cat, mem, maybe, ref, order, wlive, wmaybe>>
-       [] t.ev = "died" -> viol' = viol \cup {<<l, "NodeDied">>} /\ UNCHANGED <<cat, mem, maybe, ref, order, wlive, wmaybe>>
+                            /\ UNCHANGED <<cat, mem, maybe, ref, order, descr, wlive, wmaybe>>
+       [] t.ev = "died" -> viol' = viol \cup {<<l, "NodeDied">>} /\ UNCHANGED <<cat, mem, maybe, ref, order, descr, wlive, wmaybe>>
        [] t.ev = "view" -> /\ viol' = viol \cup ViewViol(t)
                            /\ ref' = (IF ref = <<>> /\ Ids(t.datasets) = cat THEN t.datasets ELSE ref)
-                           /\ UNCHANGED <<cat, mem, maybe, order, wlive, wmaybe>>
-       [] OTHER -> UNCHANGED <<cat, mem, maybe, order, wlive, wmaybe, viol>> /\ ref' = <<>>
+                           /\ UNCHANGED <<cat, mem, maybe, order, descr, wlive, wmaybe>>
+       [] OTHER -> UNCHANGED <<cat, mem, maybe, order, descr, wlive, wmaybe, viol>> /\ ref' = <<>>
 Spec == Init /\ [][Step]_vars
 Report == l = Len(Trace) + 1 => PrintT(<<"VIOL", ToJson([n |-> Len(Trace), v |-> viol])>>)
 =============================================================================
